@@ -1,6 +1,6 @@
 SPECIFICATION Spec
 CONSTANTS
-  Alphabet = {"a", "B", "1", "9", "2", "0", "#", "<", "3", "!", " "}
+  Alphabet = {"a", "B", "q", "z", "1", "9", "2", "0", "#", "<", "3", "!", " "}
   MaxLen = 5
 INVARIANT Tiling
 INVARIANT NoEmpty
